@@ -143,8 +143,8 @@ def search(pid, unit, failure, tier='quick', seed=0):
         from . import witness_layout
         return witness_layout.search(deadline, rng)
     if pid == 'C08' and unit in ('U-MUT', 'U-MUTW', 'U-FCALL'):
-        from . import witness_mut
-        return witness_mut.search(deadline, rng)
+        from . import witness_mut, witness_types
+        return witness_mut.search(deadline, rng) or witness_types.search(deadline, rng, only='with the & missing')
     if pid == 'C07' and unit in ('U-RES', 'U-FCALL', 'U-VT'):
         from . import witness_types
         return witness_types.search(deadline, rng)
